@@ -7,7 +7,8 @@ open Proto Coll
           N:<ty>  A:<j>:<obj>  C:<j>:<k>  S:<j>:<obj;obj|->  P:<j>:<i|n>  Q:<j>:<name>
           +A:<j>:<obj>  +C:<j>:<k>  +S:<j>:<objs>           obj = id.name.ty
           -> per step (a) or for the last step (l):  <result>#<dump of all collections>
-      hkey <d1> <d2>                  d = k:v,k:v     -> new:<0|1> old:<0|1>
+      collx <f|i|o|b> <op> ...        the same with the fixed copy / a copy sharing index / list / both (negative models)
+      hkey <d1> <d2>                  d = k=v,k=v ; v = f<bits> | i<int>_<bits|-> | o<code>   -> new:<0|1> old:<0|1>
       pdfset <op> ...                 a:<d>:<p> | g:<d>   -> per op ok|E|<p>
       and <stage> <i<m>|l<m,m>>   or <stage> <..>   joint <name:stage,..> <..>
       cfg <world> <op> ...            world = cfg|cfg ; cfg = dicts@leaves ; entry = path=val ; path = k.k or _
@@ -59,7 +60,10 @@ def fColl (cs : List (C Nat)) (c : C Nat) : String :=
 def fWorld (w : World Nat) : String :=
   if w.colls.isEmpty then "-" else String.intercalate "|" (w.colls.map (fColl w.colls))
 
-def collHist (all : Bool) (ops : List String) : String := Id.run do
+def copyMode (m : String) : Nat → C Nat → C Nat :=
+  if m == "i" then copyShareIdx else if m == "o" then copyShareList else if m == "b" then copyShareBoth else copyOf
+
+def collHist (cp : Nat → C Nat → C Nat) (all : Bool) (ops : List String) : String := Id.run do
   let mut w : World Nat := { next := 0, colls := [] }
   let mut outs : Array String := #[]
   for s in ops do
@@ -69,7 +73,7 @@ def collHist (all : Bool) (ops : List String) : String := Id.run do
         w := newColl w ty
         outs := outs.push s!"ok#{fWorld w}"
     | some (.inr op) =>
-        let (w', r) := step w op
+        let (w', r) := stepWith cp w op
         -- the specification must agree on the abstract view and the result
         let (s', r') := specStep (view w) op
         let agree := decide (view w' = s') && (fRes r == fRes r')
@@ -78,6 +82,22 @@ def collHist (all : Bool) (ops : List String) : String := Id.run do
   if all then return String.intercalate " " outs.toList
   else return outs.back?.getD "-"
 
+/-- python value: f<bits> | i<int>_<bits or -> | o<code> -/
+def pVal (s : String) : PyVal :=
+  let body := (s.drop 1).toString
+  if s.startsWith "f" then .flt (pN body)
+  else if s.startsWith "i" then
+    match body.splitOn "_" with
+    | [i, b] => .int (pI i) (if b == "-" then none else some (pN b))
+    | _ => .other 0
+  else .other (pN body)
+
+def pVDict (s : String) : List (Nat × PyVal) :=
+  if s == "-" then [] else (s.splitOn ",").map fun e =>
+    match e.splitOn "=" with
+    | [k, v] => (pN k, pVal v)
+    | _ => (0, .other 0)
+
 def pDict (s : String) : List (Nat × Nat) :=
   if s == "-" then [] else (s.splitOn ",").map fun e =>
     match e.splitOn ":" with
@@ -85,19 +105,16 @@ def pDict (s : String) : List (Nat × Nat) :=
     | _ => (0, 0)
 
 def pdfsetRun (ops : List String) : String := Id.run do
-  let mut s : List (List (Nat × Nat) × Nat) := []
+  let mut s : List (List (Nat × PyVal) × Nat) := []
   let mut outs : Array String := #[]
   for o in ops do
     match o.splitOn ":" with
     | ["a", d, p] =>
-        -- items are `k=v` inside a pdfset op (":" separates the op fields)
-        let d' := pDict (d.replace "=" ":")
-        match addPdf id s d' (pN p) with
+        match addGridPdf id s (pVDict d) (pN p) with
         | none => outs := outs.push "E"
         | some s' => s := s'; outs := outs.push "ok"
     | ["g", d] =>
-        let d' := pDict (d.replace "=" ":")
-        match getPdf id s d' with
+        match getGridPdf id s (pVDict d) with
         | none => outs := outs.push "E"
         | some p => outs := outs.push (toString p)
     | _ => outs := outs.push "bad-op"
@@ -154,11 +171,12 @@ def cfgRun (world : String) (ops : List String) : String := Id.run do
 
 def answer (line : String) : String :=
   match tokens line with
-  | "coll" :: "a" :: ops => collHist true ops
-  | "coll" :: "l" :: ops => collHist false ops
+  | "coll" :: "a" :: ops => collHist copyOf true ops
+  | "coll" :: "l" :: ops => collHist copyOf false ops
+  | "collx" :: m :: ops => collHist (copyMode m) true ops
   | ["hkey", d1, d2] =>
-      let a := pDict d1; let b := pDict d2
-      s!"new:{fB (decide (hashKey id a = hashKey id b))} old:{fB (decide (hashKeyOld id a = hashKeyOld id b))}"
+      let a := pVDict d1; let b := pVDict d2
+      s!"new:{fB (decide (gridKey id a = gridKey id b))} old:{fB (decide (hashKeyOld id a = hashKeyOld id b))}"
   | "pdfset" :: ops => pdfsetRun ops
   | ["and", st, ss] => fB (andCheckS (pN st) (pStages ss))
   | ["or", st, ss] => fB (orCheckS (pN st) (pStages ss))
